@@ -26,7 +26,7 @@ ASSUMPTIONS = [
 ]
 EXHAUSTIVE = {"quick": True, "thorough": True}
 SHARDS = {"quick": 12, "thorough": 14}
-FLOORS = {"quick": {"calls_with_falsy_or_mutable_defaults": 10000, "contract_evaluations_in_repo_tests": 200, "accepted_calls": 20000, "ignore_lists_checked": 20000, "method_calls": 8000, "calls_after_a_change_of_defaults": 5000, "calls_of_methods_without_an_explicit_self": 300},
+FLOORS = {"quick": {"calls_with_falsy_or_mutable_defaults": 10000, "contract_evaluations_in_repo_tests": 200, "accepted_calls": 20000, "ignore_lists_checked": 20000, "method_calls": 8000, "calls_after_a_change_of_defaults": 5000, "calls_with_defaults_of_unusual_equality": 5000, "calls_of_methods_without_an_explicit_self": 300},
           "thorough": {"contract_evaluations_in_repo_tests": 200, "accepted_calls": 100000, "ignore_lists_checked": 100000, "method_calls": 40000, "calls_after_a_change_of_defaults": 20000, "calls_of_methods_without_an_explicit_self": 1000}}
 
 
@@ -197,5 +197,84 @@ def run_one(case, ctx, filter_args):
             n += 1
             if n >= 12:
                 break
+    # ... and once more with default VALUES whose equality is unusual (like arrays: comparisons without a truth value; like
+    # unittest.mock.ANY: equal to everything; like nan: equal to nothing): a default is a value to be bound, never to be compared
+    if changed:
+        weird = [NoTruthValue(), EqualToEverything(), EqualToNothing()]
+        if f0.__defaults__:
+            f0.__defaults__ = tuple(weird[i % 3] for i in range(len(f0.__defaults__)))
+        if f0.__kwdefaults__:
+            f0.__kwdefaults__ = {k: weird[(i + 1) % 3] for i, k in enumerate(sorted(f0.__kwdefaults__))}
+        n = 0
+        for npos, kwnames in gen_sig.call_shapes(sig, method=method):
+            args, kwargs = gen_sig.values_for(npos, kwnames)
+            exp = gen_sig.python_binding(func, args, kwargs)
+            if exp is None:
+                continue
+            if method and not implicit:
+                exp = dict(self=obj, **exp)
+            ctx.evaluated()
+            ctx.count("calls_with_defaults_of_unusual_equality")
+            try:
+                with warnings.catch_warnings():
+                    warnings.simplefilter("ignore")
+                    got = filter_args(func, [], args, dict(kwargs))
+                err = None
+            except Exception as e:  # noqa
+                got, err = None, f"{type(e).__name__}: {str(e)[:200]}"
+            same = err is None and list(got) == list(exp) or (err is None and set(got) == set(exp))
+            same = same and all(got[k] is exp[k] or (type(exp[k]) not in (NoTruthValue, EqualToEverything, EqualToNothing) and got[k] == exp[k]) for k in exp)
+            if not same:
+                ctx.violation("default-value-with-unusual-equality", f"filter_args({sstr}) with defaults {f0.__defaults__} / {f0.__kwdefaults__}, called with args={args} "
+                                                                     f"kwargs={kwargs}: expected {exp!r}, got {err or repr(got)}", dict(signature=sstr, args=repr(args), kwargs=repr(kwargs)))
+                break
+            n += 1
+            if n >= 12:
+                break
     if len(ctx.samples) < 3:
         ctx.sample(dict(signature=sstr, shapes=len(list(gen_sig.call_shapes(sig)))))
+
+
+class _NoTruth:
+    def __bool__(self):
+        raise ValueError("The truth value of a comparison with more than one element is ambiguous")
+
+
+class NoTruthValue:
+    """compares element-wise, like an array: the result of == / != has no truth value"""
+    __hash__ = object.__hash__
+
+    def __eq__(self, other):
+        return _NoTruth()
+
+    def __ne__(self, other):
+        return _NoTruth()
+
+    def __repr__(self):
+        return "NoTruthValue()"
+
+
+class EqualToEverything:
+    __hash__ = object.__hash__
+
+    def __eq__(self, other):
+        return True
+
+    def __ne__(self, other):
+        return False
+
+    def __repr__(self):
+        return "EqualToEverything()"
+
+
+class EqualToNothing:
+    __hash__ = object.__hash__
+
+    def __eq__(self, other):
+        return False
+
+    def __ne__(self, other):
+        return True
+
+    def __repr__(self):
+        return "EqualToNothing()"
